@@ -695,3 +695,297 @@ def replay_history(prop, path, oracle):
     if bad:
         print("VIOLATION property=%s replay=%s" % (prop, path))
     return bad
+
+
+# ------------------------------------------------------------------------------------------------ O-C05: populated databases
+def pk_cols_of(t):
+    for k in t.get("constraints") or []:
+        if k["type"] == "primary_key":
+            return k["columns"]
+    return []
+
+
+def col_of(t, n):
+    return next((c for c in t["columns"] if c["name"] == n), None)
+
+
+def base_value(ty, i):
+    """a value of the column's type for row i (1-based), distinct per row"""
+    if isinstance(ty, str):
+        if ty in ("small_int", "integer", "big_int"):
+            return i
+        if ty in ("real", "double_precision"):
+            return i + 0.5
+        if ty == "boolean":
+            return i % 2
+        if ty == "date":
+            return "2020-01-0%d" % i
+        if ty == "time":
+            return "0%d:00:00" % i
+        if ty in ("timestamp", "timestamptz"):
+            return "2020-01-0%d 00:00:00" % i
+        if ty == "uuid":
+            return "00000000-0000-0000-0000-00000000000%d" % i
+        if ty == "json":
+            return '{"k":%d}' % i
+        if ty in ("inet", "cidr"):
+            return "10.0.0.%d" % i
+        if ty == "macaddr":
+            return "00:00:00:00:00:0%d" % i
+        return "v%d" % i
+    k = ty["kind"]
+    if k == "numeric":
+        return i
+    if k == "enum":
+        vals = ty["values"]
+        v = vals[(i - 1) % len(vals)]
+        return v["value"] if isinstance(v, dict) else v
+    if k in ("char", "varchar") and ty.get("length") == 1:
+        return "abc"[i - 1]
+    return "v%d" % i
+
+
+def row_count(t):
+    """3 rows; 2 when the table has a boolean / enum column (so that every column can hold pairwise distinct values and a later
+    UNIQUE over it is not violated by the population itself); 1 when an enum has a single label"""
+    n = 3
+    for c in t["columns"]:
+        if c["type"] == "boolean":
+            n = min(n, 2)
+        if is_enum(c["type"]):
+            n = min(n, 2, len(c["type"]["values"]))
+    return max(n, 1)
+
+
+def cell_value(schema, t, c, i, fuel=6):
+    """value of column c of row i of table t: foreign-key columns take the referenced column's value of a parent row
+    (row 2 of a nullable foreign-key column is NULL); row 2 of any other nullable non-key column is NULL"""
+    keyed = set(pk_cols_of(t))
+    for k in t.get("constraints") or []:
+        if k["type"] == "foreign_key" and c["name"] in k["columns"] and fuel > 0:
+            if c["nullable"] and i == 2 and c["name"] not in keyed:
+                return None
+            parent = next((x for x in schema if x["name"] == k["ref_table"]), None)
+            if parent is None:
+                return None if c["nullable"] else base_value(c["type"], i)
+            rc = col_of(parent, k["ref_columns"][k["columns"].index(c["name"])])
+            if rc is None:
+                return None if c["nullable"] else base_value(c["type"], i)
+            j = (i - 1) % row_count(parent) + 1
+            uniq = set(keyed)
+            for u in t.get("constraints") or []:
+                if u["type"] == "unique":
+                    uniq |= set(u["columns"])
+            if parent["name"] == t["name"] and c["name"] not in uniq:
+                j = 1        # self reference: every row points at row 1 (row i at row i when the column is a key)
+            return cell_value(schema, parent, rc, j, fuel - 1)
+    if c["nullable"] and i == 2 and c["name"] not in keyed:
+        return None
+    return base_value(c["type"], i)
+
+
+def populate(conn, schema, only_empty=True):
+    """insert rows consistent with the believed schema into every (empty) table; enforcement is switched off while
+    inserting, consistency is by construction and verified with PRAGMA foreign_key_check by the caller"""
+    n_ins = 0
+    for t in schema:
+        if only_empty and conn.execute('SELECT COUNT(*) FROM "%s"' % t["name"]).fetchone()[0] > 0:
+            continue
+        for i in range(1, row_count(t) + 1):
+            names = [c["name"] for c in t["columns"]]
+            vals = [cell_value(schema, t, c, i) for c in t["columns"]]
+            conn.execute('INSERT INTO "%s" (%s) VALUES (%s)' % (t["name"], ", ".join('"%s"' % n for n in names), ", ".join("?" for _ in vals)), vals)
+            n_ins += 1
+    return n_ins
+
+
+def canon(v):
+    if v is None:
+        return None
+    if isinstance(v, bytes):
+        return "x" + v.hex()
+    if isinstance(v, float) and v == int(v):
+        return str(int(v))
+    if isinstance(v, str):
+        try:
+            f = float(v)
+            if f == int(f) and re.fullmatch(r"-?\d+(\.0*)?", v.strip()):
+                return str(int(f))
+        except ValueError:
+            pass
+    return str(v)
+
+
+def snapshot(conn):
+    """{table: (columns, sorted list of rows)} with canonical text values"""
+    out = {}
+    for (name,) in conn.execute("SELECT name FROM sqlite_master WHERE type='table' AND name NOT LIKE 'sqlite_%' ORDER BY name").fetchall():
+        cur = conn.execute('SELECT * FROM "%s"' % name)
+        cols = [d[0] for d in cur.description]
+        rows = [[canon(v) for v in r] for r in cur.fetchall()]
+        out[name] = (cols, sorted(rows, key=lambda r: [("", "") if v is None else ("v", v) for v in r]))
+    return out
+
+
+def plan_effects(plan):
+    """what the plan says about tables/columns: renames, retyped / deleted / added columns, touched tables (in plan order)"""
+    tmap, touched = {}, set()      # tmap: pre table name -> post table name (None = dropped)
+    cmap = collections.defaultdict(dict)   # pre table -> {pre col: post col | None}
+    retyped, added = collections.defaultdict(set), collections.defaultdict(dict)
+    fills = collections.defaultdict(dict)
+    cur_name = {}                  # current name -> pre name
+    def pre_of(t):
+        return cur_name.get(t, t)
+    def cur_col(pre_t, c):
+        # pre column name whose current name is c
+        for a, b in cmap[pre_t].items():
+            if b == c:
+                return a
+        return c
+    for a in plan["actions"]:
+        ty = a["type"]
+        if ty == "raw_sql":
+            continue
+        if ty == "rename_table":
+            p = pre_of(a["from"])
+            cur_name.pop(a["from"], None)
+            cur_name[a["to"]] = p
+            tmap[p] = a["to"]
+            touched.add(p)
+            continue
+        t = a.get("table")
+        p = pre_of(t)
+        touched.add(p)
+        if ty == "create_table":
+            touched.add(t)
+        elif ty == "delete_table":
+            tmap[p] = None
+        elif ty == "rename_column":
+            pc = cur_col(p, a["from"])
+            if pc in added[p]:
+                added[p][a["to"]] = added[p].pop(pc)
+            else:
+                cmap[p][pc] = a["to"]
+        elif ty == "delete_column":
+            pc = cur_col(p, a["column"])
+            if pc in added[p]:
+                added[p].pop(pc)
+            else:
+                cmap[p][pc] = None
+        elif ty == "modify_column_type":
+            pc = cur_col(p, a["column"])
+            retyped[p].add(pc)
+            if a.get("fill_with"):
+                fills[p][pc] = a["fill_with"]
+        elif ty == "modify_column_nullable":
+            pc = cur_col(p, a["column"])
+            if not a["nullable"]:
+                retyped[p].add(pc)      # NULLs are rewritten by the fill: judged separately
+        elif ty == "add_column":
+            added[p][a["column"]["name"]] = a
+    return tmap, cmap, retyped, added, fills, touched
+
+
+def compare_rows(pre, post, plan):
+    """C05's row clauses. Returns list of differences (empty = holds)."""
+    tmap, cmap, retyped, added, fills, touched = plan_effects(plan)
+    d = []
+    for t, (cols, rows) in pre.items():
+        if t.endswith("_temp") and t not in touched:
+            continue
+        pt = tmap.get(t, t)
+        if pt is None:
+            continue                   # the migration drops the table
+        if pt not in post:
+            d.append("table %s (pre %s) is gone" % (pt, t))
+            continue
+        pcols, prows = post[pt]
+        if t not in touched:
+            if (cols, rows) != (pcols, prows):
+                d.append("table %s is not mentioned by the migration but its rows changed: %d -> %d rows" % (t, len(rows), len(prows)))
+            continue
+        keep = [(c, cmap[t].get(c, c)) for c in cols if cmap[t].get(c, c) is not None and c not in retyped[t]]
+        keep = [(a, b) for a, b in keep if b in pcols]
+        a = sorted([[r[cols.index(x)] for x, _ in keep] for r in rows], key=lambda r: [("", "") if v is None else ("v", v) for v in r])
+        b = sorted([[r[pcols.index(y)] for _, y in keep] for r in prows], key=lambda r: [("", "") if v is None else ("v", v) for v in r])
+        if a != b:
+            d.append("table %s: %d rows before, %d after; surviving columns %s differ: before %s after %s" % (pt, len(rows), len(prows), [x for x, _ in keep], a[:4], b[:4]))
+        # new NOT NULL columns carry a value
+        for cn, act in added[t].items():
+            if cn in pcols and not act["column"]["nullable"] and rows:
+                vals = [r[pcols.index(cn)] for r in prows]
+                if any(v is None for v in vals):
+                    d.append("table %s: new NOT NULL column %s holds NULL" % (pt, cn))
+        # removed enum labels are rewritten as mapped
+        for pc, mp in fills[t].items():
+            if pc in cols and cmap[t].get(pc, pc) in pcols:
+                exp = sorted(str(mp.get(r[cols.index(pc)], r[cols.index(pc)])) for r in rows if r[cols.index(pc)] is not None)
+                got = sorted(str(r[pcols.index(cmap[t].get(pc, pc))]) for r in prows if r[pcols.index(cmap[t].get(pc, pc))] is not None)
+                if exp != got:
+                    d.append("table %s column %s: enum values not rewritten as mapped: expected %s got %s" % (pt, pc, exp, got))
+    return d
+
+
+CONSTRAINT_MSG = ("UNIQUE constraint failed", "CHECK constraint failed", "NOT NULL constraint failed", "datatype mismatch", "FOREIGN KEY constraint failed")
+
+
+def data_caused(rec, err_message):
+    """C05 exempts failures caused by the existing data violating a constraint the migration introduces (or by a type change,
+    whose cast feasibility the property leaves out): the engine reports a constraint failure AND the plan tightens something"""
+    if not err_message.startswith(CONSTRAINT_MSG):
+        return False
+    fk_msg = err_message.startswith("FOREIGN KEY constraint failed")
+    for a in rec["plan"]["actions"]:
+        ty = a["type"]
+        if fk_msg:
+            if ty == "add_constraint" and a["constraint"]["type"] == "foreign_key":
+                return True
+            if ty == "add_column" and a["column"].get("foreign_key"):
+                return True
+            continue
+        if ty == "modify_column_type" or (ty == "modify_column_nullable" and not a["nullable"]):
+            return True
+        if ty == "add_constraint" and a["constraint"]["type"] in ("unique", "check", "primary_key"):
+            return True
+        if ty == "add_column" and (a["column"].get("unique") or a["column"].get("primary_key") or is_enum(a["column"]["type"])):
+            return True
+    return False
+
+
+def oracle_c05_history(recs, fk_on, stop_before=None):
+    """populated run of one history. stop_before: step index at which the empty-database run (C02) already fails.
+    Returns (first failure or None, number of migrations judged, list of (row idx, pre snapshot, post snapshot | error))"""
+    conn = new_db(False)
+    judged, traces = 0, []
+    try:
+        for k, rec in enumerate(recs):
+            if stop_before is not None and k >= stop_before:
+                break
+            if generation_failure(rec) or rec.get("post") is None:
+                break
+            conn.execute("PRAGMA foreign_keys=OFF")
+            try:
+                populate(conn, rec["baseline"])
+                bad = conn.execute("PRAGMA foreign_key_check").fetchall()
+            except sqlite3.Error:
+                bad = True
+            if bad:
+                break                     # no consistent population found by the simple scheme: not judged
+            conn.execute("PRAGMA foreign_keys=%s" % ("ON" if fk_on else "OFF"))
+            pre = snapshot(conn)
+            err = run_migration(conn, rec)
+            judged += 1
+            if err:
+                traces.append((rec["_idx"], pre, {"error": err[2]}))
+                if data_caused(rec, err[3]):
+                    return {"step": k, "kind": "exempt-data-violates-new-constraint", "message": err[3], "sql": err[4]}, judged, traces
+                return {"step": k, "kind": "engine-error", "action": err[0], "stmt": err[1], "flat": err[2], "message": err[3], "sql": err[4],
+                        "rows_before": {t: len(v[1]) for t, v in pre.items()}}, judged, traces
+            post = snapshot(conn)
+            traces.append((rec["_idx"], pre, post))
+            diff = compare_rows(pre, post, rec["plan"])
+            if diff:
+                return {"step": k, "kind": "rows-differ", "differences": diff}, judged, traces
+        return None, judged, traces
+    finally:
+        conn.close()
